@@ -73,6 +73,9 @@ def r2_typestate(ctx):
                 if cur == "Done":
                     ctx.ob("R2", "%s:Done-arm" % nm, rv[:2] == ("Ok", "Eof") and not src_calls, "in state Done the reader returns Eof and does not touch the source (calls: %s)" % [sym.short(c[2]) for c in src_calls], config=cfg)
                 # classification of the result
+                if is_error_exit(p) and len(rv) < 2:
+                    ctx.ob("R2", "%s:io-error-propagated[%s]" % (nm, cur), True, "`?` on an io::Result helper (BOM sniff / skip_whitespace): cannot carry a syntax error by type", config=cfg)
+                    continue
                 if rv[:2] == ("Ok", "Eof"):
                     ctx.ob("R2", "%s:Eof-is-final[%s]" % (nm, cur), final == "Done", "returning Eof must leave the reader in state Done (last state written: %s)" % final, config=cfg)
                 elif rv[:1] == ("Err",) and rv[:2] != ("Err", "IllFormed") and len(rv) >= 2:
